@@ -164,11 +164,30 @@ private def inst : Inst := { nodes := nodes4, parent := some 10, nChildren := 2,
 
 /-- honest children 12, 13 of node 11: one batch of two; a forged third message is refused -/
 example : run inst (fun _ => [])
-    [⟨1, some 12, some 2, 7⟩, ⟨1, some 13, some 3, 8⟩, ⟨3, some 12, some 3, 9⟩, ⟨3, none, some 2, 1⟩, ⟨3, some 99, some 2, 1⟩]
+    [⟨1, some 12, some 2, 7, none⟩, ⟨1, some 13, some 3, 8, none⟩, ⟨3, some 12, some 3, 9, none⟩, ⟨3, none, some 2, 1, none⟩, ⟨3, some 99, some 2, 1, none⟩]
     = [[(⟨12, 2⟩, ⟨1, 12, some 2, 7⟩), (⟨13, 3⟩, ⟨1, 13, some 3, 8⟩)]] := by decide
 
 /-- one impersonating element poisons the whole aggregated batch: nothing is delivered -/
-example : run inst (fun _ => []) [⟨1, some 12, some 2, 7⟩, ⟨1, some 13, some 2, 8⟩] = [] := by decide
+example : run inst (fun _ => []) [⟨1, some 12, some 2, 7, none⟩, ⟨1, some 13, some 2, 8, none⟩] = [] := by decide
+
+/-- **the identity field inside the wire message is not an input**: whatever the sender writes into
+the `ServerIdentity` field of the message itself, every run delivers the same — only the identity the
+transport attached to the connection (`Wire.peer`) is consulted. -/
+theorem c02_wire_identity_ignored (i : Inst) (q : Queues) (ws : List Wire) (f : Wire → Option Nat) :
+    run i q (ws.map fun w => { w with claimed := f w }) = run i q ws := by
+  induction ws generalizing q with
+  | nil => rfl
+  | cons w ws ih =>
+    simp only [List.map_cons, run]
+    have h : receive i q { w with claimed := f w } = receive i q w := rfl
+    rw [h, ih]
+
+/-- non-vacuity: a message claiming node 12 (hosted by server 2) over server 3's connection, with the
+wire field saying "server 2", is refused; the honest one is delivered -/
+example : run { nodes := [⟨10, 0⟩, ⟨11, 1⟩, ⟨12, 2⟩, ⟨13, 3⟩], parent := some 10, nChildren := 2, agg := fun _ => false }
+    (fun _ => []) [{ ty := 3, sender := some 12, peer := some 3, val := 7, claimed := some 2 },
+                   { ty := 3, sender := some 12, peer := some 2, val := 8 }]
+    = [[(⟨12, 2⟩, ⟨3, 12, some 2, 8⟩)]] := by decide
 
 /-! ### the code regions the model stands for
 Regenerated from /repo's source on every run (`harness/cmd/astfacts` → `OnetVerif/Shapes.lean`): the
